@@ -183,6 +183,50 @@ pub fn gen_paragraphs(src: &mut Src, _i: usize) -> Case {
     case
 }
 
+/// magnitudes: logical lines of hundreds to thousands of characters, hundreds of lines of
+/// scrollback, widths beyond 255, chains of many resizes
+pub fn gen_large(src: &mut Src, _i: usize) -> Case {
+    let cols = *src.pick(&[2usize, 7, 40, 80, 132, 255, 256, 257, 300, 512]);
+    let rows = *src.pick(&[1usize, 2, 5, 24, 50, 130, 260]);
+    let mut s = String::new();
+    let nlines = src.range(1, 40) * if src.chance(1, 4) { 12 } else { 1 };
+    for k in 0..nlines {
+        let len = match src.below(6) {
+            0 => src.range(0, 20),
+            1 => cols * src.range(1, 6),
+            2 => 255 + src.range(0, 3),
+            3 => src.range(256, 1500),
+            4 => 65 + src.range(0, 4000) % 700,
+            _ => src.range(1, 3 * cols + 2),
+        };
+        for j in 0..len {
+            s.push((b'a' + ((k * 7 + j) % 26) as u8) as char);
+        }
+        if k + 1 < nlines {
+            s.push_str("\r\n");
+        }
+    }
+    match src.below(4) {
+        0 => s.push_str(&format!("\x1b[{};{}H", src.range(1, rows), src.range(1, cols))),
+        1 => s.push_str("\x1b[H"),
+        2 => s.push_str(&format!("\x1b[{}A", src.range(1, rows))),
+        _ => {}
+    }
+    let mut case = Case::new(cols, rows, None).feed(s);
+    let n = if src.chance(1, 5) { src.range(5, 24) } else { src.range(1, 3) };
+    for _ in 0..n {
+        let c = *src.pick(&[1usize, 2, 3, 9, 64, 100, 128, 254, 255, 256, 257, 300, 700]);
+        let r = *src.pick(&[1usize, 2, 3, 10, 24, 100, 255, 256, 300]);
+        let (c, r) = match src.below(3) {
+            0 => (c, rows),
+            1 => (cols, r),
+            _ => (c, r),
+        };
+        case.calls.push(Call::Resize(c, r));
+    }
+    case
+}
+
 /// every (cols, rows) -> (cols', rows') on tiny sizes for a few fixed contents and cursors
 fn enum_all_pairs() -> Vec<Case> {
     let contents = ["abcdefghijklmnop", "ab\r\ncdefgh\r\ni", "abcdefgh\x1b[H", "abc\r\n\r\ndefghijk\x1b[2;2H", "abcdefghijkl\x1b[1;3H\x1b[K"];
@@ -207,6 +251,7 @@ pub fn run(env: &Env) -> PropRun {
     let ep = enum_all_pairs();
     parts.push(run_part(env, "enum-all-size-pairs", ep.len(), true, "5 contents x every (cols 1-5, rows 1-4) -> (cols 1-6, rows 1-4)", &|i| ep.get(i).cloned(), &j));
     parts.push(random_part(env, "paragraphs", env.tier.scale(80_000, 40), &gen_paragraphs, &j));
+    parts.push(random_part(env, "large-and-long", env.tier.scale(600, 30), &gen_large, &j));
     parts.push(random_part(env, "random-histories", env.tier.scale(120_000, 40), &gen_random, &j));
     PropRun {
         parts,
